@@ -33,7 +33,7 @@ CHECKS = {
     "C10": ("other", "two-state frame contracts on read-only operations + bounded differential histories",
             "Proved: 13 read-only operations on fresh receivers and 5 on lazily selected ones write no pre-existing buffer and preserve the rows; the buffer-dependence obligation on lazily selected receivers is refuted and is the recorded known finding. The history relation itself is bounded.", "0, 20, 11/C10"),
     "C11": ("other", "contracts around the bucket structure + bounded Python-dict stand-in",
-            "Proved: hash is a bucket index for every key sign, _get_indices against its callees' contracts (refusal iff a key is absent; the offsets locate the keys), scalar-valued lookup/refusal, assignment order, contains scatter. the constructor establishes the bucket invariant (every cell lies in the bucket of its key's hash, keys and values permuted alike, nothing lost; five inductions over the sort / unique-counts / prefix-sum chain). and the lookup lemma over the shared contract formulas of __init__ and _get_indices: for distinct keys the value fetched for a queried key is the value stored with that key (the dictionary {K[j]: V[j]}). Histories against a dict are bounded. One known finding (8-bit key dtype with a wider modulus).", "0, 20, 11/C11"),
+            "Proved: hash is a bucket index for every key sign, _get_indices against its callees' contracts (refusal iff a key is absent; the offsets locate the keys), scalar-valued lookup/refusal, assignment order, contains scatter. the constructor establishes the bucket invariant (every cell lies in the bucket of its key's hash, keys and values permuted alike, nothing lost; five inductions over the sort / unique-counts / prefix-sum chain). and the lookup lemma over the shared contract formulas of __init__ and _get_indices: for distinct keys the value fetched for a queried key is the value stored with that key (the dictionary {K[j]: V[j]}); the assignment lemma over the same formulas: after table[A] = W the cell of an input key holds the last value assigned to it and is unchanged if no assigned key equals it (changes those keys only; the key cells are not written). Histories against a dict (the induction over operation sequences) are bounded. One known finding (8-bit key dtype with a wider modulus).", "0, 20, 11/C11"),
     "C12": ("other", "contract of Counter.count's state update + bounded collections.Counter stand-in",
             "Proved: which samples are looked up and values' = values + hits per flat position in all four value states (bincount contract), ravel_multi_index, hash. the constructor's bucket invariant (HashTable.__init__). Totals end-to-end against collections.Counter are bounded.", "0, 20, 11/C12"),
     "C13": ("proof", "contract-based deductive verification in QF_BV + linear integer arithmetic of the real pack / unpack / __getitem__ / sliding_window",
